@@ -25,6 +25,7 @@ type vActor struct {
 	state  int // 0 new, 1 running, 2 parked, 3 done
 	where  string
 	body   func()
+	reqId  int64 // request this actor issues (0 = none: sweeper, role change)
 }
 
 type vSched struct {
@@ -60,6 +61,11 @@ func (s *vSched) gate(where string) {
 	a.where = where
 	s.signal <- a
 	<-a.resume
+	// the request goes on from its entry yield point (before it takes the shard mutex): whatever role the node
+	// has from here on is the role its whole critical section sees (role changes hold every shard mutex)
+	if a.reqId != 0 && (where == "lock.mgr.got" || where == "unlock.mgr.got") {
+		s.w.tr.Emit(map[string]interface{}{"e": "pass", "id": a.reqId, "at": where})
+	}
 }
 
 // release lets actor a run until it parks at its next gate or finishes.  If it does neither within 1.5 s it is
@@ -205,11 +211,17 @@ func (w *vWorld) runParStep(nextId *int64, ops []vReq, sched []int, extraGates [
 			*nextId++
 			w.tr.Emit(w.reqEvent(id, r))
 			rr := r
-			a := &vActor{id: len(actors), resume: make(chan struct{})}
+			a := &vActor{id: len(actors), resume: make(chan struct{}), reqId: id}
 			a.body = func() {
 				w.Issue(id, rr)
 				w.tr.Emit(map[string]interface{}{"e": "ret", "id": id, "t": w.sec(), "ms": w.ms()})
 			}
+			actors = append(actors, a)
+		case "status":
+			// role change of the node racing the requests of this phase (SLock.updateState: every shard mutex held)
+			st := r.Status
+			a := &vActor{id: len(actors), resume: make(chan struct{})}
+			a.body = func() { w.setStatus(st) }
 			actors = append(actors, a)
 		case "tick":
 			// two sweeper actors, as checkTimeOut / checkExpried run concurrently in the server
